@@ -282,14 +282,19 @@ Honest(t) == /\ t.id = "ok" /\ (\A i \in DOMAIN t.isigs : SelfValid(t.isigs[i]))
              /\ \E f \in {g \in HonestForms : FormDef[g].init = t.init /\ FormDef[g].auth = t.auth} :
                   LET oc == OC(t.ins, t.ctr) IN oc \in AllOwners /\ HonestOC(f, oc) /\ [t EXCEPT !.rich = FALSE] = HonestTx(t.ver, f, oc)
 
-OwnersFor(honestVec) == IF FullOwners \/ honestVec THEN AllOwners ELSE BasicOwners
-SigCasesOf(f) == UNION {{BuildSig(v, f, sg, id, oc) : v \in 1..3, id \in {"ok", "stale"}, oc \in OwnersFor(sg = AllValid(Len(sg)))}
-                        : sg \in Vecs(Len(Slots(f)), MaxDev)}
-SigCases == UNION {SigCasesOf(f) : f \in SigForms}
-XSCasesOf(f) == UNION {{BuildXS(v, f, ps[1], ps[2], id, oc) : v \in 1..3, id \in {"ok", "stale"}, oc \in OwnersFor(ps = <<"ok", "honest">>)}
-                       : ps \in {q \in PkStatuses \X XSigStatuses : XSBuildable(XSOf(FormDef[f].pks, q[1], q[2]))}}
-XSCases == UNION {XSCasesOf(f) : f \in XSForms}
-Cases == SigCases \cup XSCases
+(* Cases are identified by small tuples <<form, index of the status vector, id status, index of the owner  *)
+(* configuration, version>> (sets of deep records are expensive to normalise); CaseOf builds the record.    *)
+VecTab == [f \in SigForms |-> SetToSeq(Vecs(Len(Slots(f)), MaxDev))]
+XSTab == [f \in XSForms |-> SetToSeq({q \in PkStatuses \X XSigStatuses : XSBuildable(XSOf(FormDef[f].pks, q[1], q[2]))})]
+OwnerSeq == SetToSeq(AllOwners)
+BasicIdx == {i \in DOMAIN OwnerSeq : OwnerSeq[i] \in BasicOwners}
+OwnerIdxFor(honestVec) == IF FullOwners \/ honestVec THEN DOMAIN OwnerSeq ELSE BasicIdx
+IdsOf(f, k, honestVec) == {<<f, k, id, o, v>> : id \in {"ok", "stale"}, o \in OwnerIdxFor(honestVec), v \in 1..3}
+SigIds == UNION {UNION {IdsOf(f, k, VecTab[f][k] = AllValid(Len(VecTab[f][k]))) : k \in DOMAIN VecTab[f]} : f \in SigForms}
+XSIds == UNION {UNION {IdsOf(f, k, XSTab[f][k] = <<"ok", "honest">>) : k \in DOMAIN XSTab[f]} : f \in XSForms}
+CaseIds == SigIds \cup XSIds
+CaseOf(c) == IF c[1] \in SigForms THEN BuildSig(c[5], c[1], VecTab[c[1]][c[2]], c[3], OwnerSeq[c[4]])
+             ELSE BuildXS(c[5], c[1], XSTab[c[1]][c[2]][1], XSTab[c[1]][c[2]][2], c[3], OwnerSeq[c[4]])
 
 -----------------------------------------------------------------------------
 (* (b) The field table: every field of the Transaction schema reachable by reflection, with the class  *)
@@ -550,7 +555,8 @@ Verify == /\ phase \in {"built", "mutated"}
 Mutate(m) == /\ phase = "verified" /\ verdict = "ok" /\ orig.rich
              /\ tx' = MutTx(KC, orig, m) /\ mut' = m /\ phase' = "mutated" /\ hist' = Append(hist, [op |-> "mut"])
              /\ UNCHANGED <<orig, verdict>>
-Next == \/ \E t \in Cases \cup RichBases : Build(t)
+Next == \/ \E c \in CaseIds : Build(CaseOf(c))
+        \/ \E t \in RichBases : Build(t)
         \/ Verify
         \/ \E m \in MutsFor(orig) : Mutate(m)
 Spec == Init /\ [][Next]_vars
